@@ -582,7 +582,7 @@ fn rule_addenda(id: &str) -> &'static str {
         "C17" => " Added later: cyclic routes; a trader one unit short; fee-aware decomposition of refused routes in transfer-fee / hook worlds; any refusal of the program's own needs a reason the single swaps would have met too; duplicated slice types.",
         "C18" => " Added later: bundle invariants after every transaction; wrapping addition amounts, a small deposit through the frozen account and a second empty unfrozen account in the locked-position probe; mismatched bundle indexes; bundle deletion with full bitmaps on copies; no use of a position closed earlier in the same transaction.",
         "C19" => " Added later: setters echo their arguments; accumulator x group size at 2^32; group sizes dividing related quantities; bare 82-byte Token-2022 mints, dangling TLV tails, native mints; rewards over the pool's own mints.",
-        "C20" => " Added later: tick math sampled over the whole range; liquidity quotes at the u64 edge; amount-delta functions compared at extreme magnitudes on reached prices; SDK calls under a deadline; quotes over the SDK helper's five arrays.",
+        "C20" => " Added later: tick math sampled over the whole range; liquidity quotes at the u64 edge; amount-delta functions compared at extreme magnitudes on reached prices; SDK calls under a deadline; quotes over the SDK helper's five arrays; every fourth executed adaptive-fee swap repeated (program and SDK) on a copy whose adaptive-fee reference lies at the far end of the tick range or either side of the distance where reference + distance x 10 000 passes 2^32.",
         _ => "",
     }
 }
